@@ -132,12 +132,12 @@ theorem good_runActs {go} (hgo : GoOk go) {d id acts s} (hpre : Pre d s (.runAct
       simp only [hasFinish, hf', Bool.false_eq_true, ↓reduceIte, sends] at hpre
       rcases runActs_send hgo (spec := spec) hw hf' hpre.1 (hpre.2 (by omega))
         (fun s' st => if st == .ok then s'.modClient id fun c =>
-          if slot == 0 then { c with qidA := s'.lastQid } else { c with qidAAAA := s'.lastQid } else s')
+          if slot == 0 then { c with qidA := (genQid 70000 s).1 } else { c with qidAAAA := (genQid 70000 s).1 } else s')
         (fun s' st => by
           split
           · apply sk_modClient
             intro c _
-            exact sk_setQid c (slot == 0) s'.lastQid
+            exact sk_setQid c (slot == 0) (genQid 70000 s).1
           · rfl) with hoof | ⟨h1, hp1, hs1⟩
       · refine Or.inl (hgo.1 _ _ ?_)
         split
